@@ -69,6 +69,48 @@ theorem spec_guards_sound : Guards.spec.Sound where
   vmExp := by intro e t; simp [Guards.spec]
   blockExp := by intro e t; simp [Guards.spec]
 
+/-! ### timeout conversion and iterator guards (translated from the source) -/
+
+/-- **Seconds → nanoseconds is exact**: for every `int` number of seconds `0 ≤ t ≤ INT_MAX` the value that
+    `yr_scanner_set_timeout` (as translated from scanner.c, with C's integer conversions and wrap-around) stores in
+    the 64-bit `timeout` field is `t * 10^9` — no intermediate 32-bit product, no sign extension, no wrap. -/
+theorem timeout_conversion_exact (t : Int) (h0 : 0 ≤ t) (h1 : t ≤ 2147483647) :
+    timeoutField timeoutExpr t = some (specTimeoutNs t) := by
+  have e32 : (2 : Int) ^ 32 = 4294967296 := by decide
+  have e64 : (2 : Int) ^ 64 = 18446744073709551616 := by decide
+  have m32 : t % 4294967296 = t := Int.emod_eq_of_lt h0 (by omega)
+  have m64 : t % 18446744073709551616 = t := Int.emod_eq_of_lt h0 (by omega)
+  have p64 : t * 1000000000 % 18446744073709551616 = t * 1000000000 := Int.emod_eq_of_lt (by omega) (by omega)
+  have hs : ¬ (t ≥ 4294967296 / 2) := by omega
+  have hs' : ¬ (2147483648 ≤ t) := by omega
+  simp [timeoutField, timeoutExpr, CExpr.eval, CExpr.eval.arith, CTy.common, CTy.wrap, CTy.bits, CTy.signed, specTimeoutNs, e32, e64,
+    m32, m64, p64, hs']
+
+example : timeoutField timeoutExpr 3 = some 3000000000 ∧ timeoutField timeoutExpr 2147483647 = some 2147483647000000000 := by decide
+
+/-- what the 32-bit variant (`(uint64_t)(t > 0 ? t * 1000000000 : 0)`) would store for 3 s: the model exhibits the wrap -/
+example : timeoutField (.cast .u64 (.cond (.gt .var (.lit 0 .i32)) (.mul .var (.lit 1000000000 .i32)) (.lit 0 .i32))) 3
+    = some 18446744072414584320 := by decide
+
+/-- **One guard, several writes**: an iterator `next` function whose guard asks for `guardK + 1 ≥ maxPushes` free slots
+    writes only inside the stack whenever it proceeds — for every stack pointer and capacity. -/
+theorem iter_push_in_bounds (e : IterFn) (hc : e.guardCmp = .ge) (hk : e.maxPushes ≤ e.guardK + 1) (sp cap : Nat)
+    (hp : e.proceeds sp cap = true) : e.inBounds sp cap := by
+  simp [IterFn.proceeds, hc, Cmp.eval] at hp
+  simp [IterFn.inBounds]; omega
+
+/-- … and the guard is not stricter than needed: with `maxPushes = guardK + 1` it refuses exactly when the slots do
+    not fit (so ERROR_EXEC_STACK_OVERFLOW is raised exactly when the capacity would be exceeded). -/
+theorem iter_guard_exact (e : IterFn) (hc : e.guardCmp = .ge) (hk : e.maxPushes = e.guardK + 1) (sp cap : Nat) :
+    e.proceeds sp cap = true ↔ e.inBounds sp cap := by
+  simp [IterFn.proceeds, IterFn.inBounds, hc, Cmp.eval]; omega
+
+/-- **Every iterator of exec.c satisfies the hypotheses** (table regenerated from the source: guard constant, operator
+    and the maximum number of `stack->items[stack->sp++]` writes on any path of each `iter_*_next`). -/
+theorem gen_iter_table_sound : iterTable ≠ [] ∧ ∀ e ∈ iterTable, e.guardCmp = .ge ∧ e.maxPushes = e.guardK + 1 := by decide
+
+example : (⟨"iter_dict_next", 1, .ge, 3⟩ : IterFn).proceeds 1 3 = true ∧ ¬ (⟨"iter_dict_next", 1, .ge, 3⟩ : IterFn).inBounds 1 3 := by decide
+
 variable {G : Guards} (hG : G.Sound)
 include hG
 set_option linter.unusedSectionVars false
@@ -369,6 +411,72 @@ theorem fiber_limit (MAX : Nat) (ops : List FibOp) :
       have := hp.conserve
       simp; omega
 
+/-- **A scan that hits the fiber limit leaves the scanner usable**: every `yr_re_exec` (whatever it needs, whether it
+    fails or not) returns with no fiber live and the pool invariant intact; it fails exactly when it needs more
+    than `MAX` fibers at once. Hence, for every sequence of scans with one scanner, each scan's outcome depends only
+    on its own need — a hostile scan never changes the result of the scans that follow. -/
+theorem fiber_limit_scanner_reusable (MAX need : Nat) (p : Pool) (hp : PoolInv MAX p) (h0 : p.live = 0) :
+    PoolInv MAX (reExec G MAX need p).1 ∧ (reExec G MAX need p).1.live = 0 ∧
+    ((reExec G MAX need p).2 = some .tooManyFibers ↔ need > MAX) ∧ ((reExec G MAX need p).2 = none ↔ need ≤ MAX) := by
+  suffices H : ∀ (need : Nat) (p : Pool), PoolInv MAX p →
+      PoolInv MAX (reExec G MAX need p).1 ∧ (reExec G MAX need p).1.live = 0 ∧
+      ((reExec G MAX need p).2 = some .tooManyFibers ↔ p.live + need > MAX) ∧ ((reExec G MAX need p).2 = none ↔ p.live + need ≤ MAX) by
+    have := H need p hp
+    rw [h0] at this
+    simpa using this
+  intro need
+  induction need with
+  | zero =>
+    intro p hp
+    have hb := hp.bound; have hc := hp.conserve
+    have hinv : PoolInv MAX (releaseAll p) := ⟨hb, by show p.allocated = p.free + p.live + 0; omega⟩
+    refine ⟨hinv, rfl, ?_, ?_⟩
+    · show (none : Option Err) = some .tooManyFibers ↔ p.live + 0 > MAX
+      constructor
+      · intro h; cases h
+      · intro h; omega
+    · show (none : Option Err) = none ↔ p.live + 0 ≤ MAX
+      constructor
+      · intro _; omega
+      · intro _; rfl
+  | succ n ih =>
+    intro p hp
+    have hb := hp.bound; have hc := hp.conserve
+    simp only [reExec]
+    by_cases hfree : p.free > 0
+    · have e : fibStep G MAX p .create = (⟨p.allocated, p.free - 1, p.live + 1⟩, none) := by simp [fibStep, hfree]
+      rw [e]
+      have hp' : PoolInv MAX ⟨p.allocated, p.free - 1, p.live + 1⟩ := ⟨hb, by show p.allocated = p.free - 1 + (p.live + 1); omega⟩
+      have := ih _ hp'
+      refine ⟨this.1, this.2.1, ?_, ?_⟩
+      · rw [this.2.2.1]; show p.live + 1 + n > MAX ↔ p.live + (n + 1) > MAX; omega
+      · rw [this.2.2.2]; show p.live + 1 + n ≤ MAX ↔ p.live + (n + 1) ≤ MAX; omega
+    · by_cases hfull : G.fiberFull p.allocated MAX = true
+      · have e : fibStep G MAX p .create = (p, some .tooManyFibers) := by simp [fibStep, hfree, hfull]
+        rw [e]
+        have hmax := (hG.fiber _ _ hb).1 hfull
+        have hinv : PoolInv MAX (releaseAll p) := ⟨hb, by show p.allocated = p.free + p.live + 0; omega⟩
+        refine ⟨hinv, rfl, ?_, ?_⟩
+        · show some Err.tooManyFibers = some .tooManyFibers ↔ p.live + (n + 1) > MAX
+          constructor
+          · intro _; omega
+          · intro _; rfl
+        · show some Err.tooManyFibers = none ↔ p.live + (n + 1) ≤ MAX
+          constructor
+          · intro h; cases h
+          · intro h; omega
+      · have e : fibStep G MAX p .create = (⟨p.allocated + 1, p.free, p.live + 1⟩, none) := by simp [fibStep, hfree, hfull]
+        rw [e]
+        have hne : p.allocated ≠ MAX := fun e => hfull ((hG.fiber _ _ hb).2 e)
+        have hp' : PoolInv MAX ⟨p.allocated + 1, p.free, p.live + 1⟩ :=
+          ⟨by show p.allocated + 1 ≤ MAX; omega, by show p.allocated + 1 = p.free + (p.live + 1); omega⟩
+        have := ih _ hp'
+        refine ⟨this.1, this.2.1, ?_, ?_⟩
+        · rw [this.2.2.1]; show p.live + 1 + n > MAX ↔ p.live + (n + 1) > MAX; omega
+        · rw [this.2.2.2]; show p.live + 1 + n ≤ MAX ↔ p.live + (n + 1) ≤ MAX; omega
+
+example : reExecSeq Guards.spec 4 ⟨0, 0, 0⟩ [2, 9, 2, 4, 5] = [none, some .tooManyFibers, none, none, some .tooManyFibers] := by decide
+
 example : (fibRun Guards.spec 2 ⟨0, 0, 0⟩ [.create, .create, .create, .release, .create]).2 =
           [none, none, some .tooManyFibers, none, none] := by decide
 
@@ -396,5 +504,6 @@ theorem timeout_detected (elapsed timeout : Nat) :
   ⟨hG.vmExp elapsed timeout, hG.blockExp elapsed timeout⟩
 
 example : vmReads Guards.spec 10 0 25 = 2 ∧ vmReads Guards.spec 10 9 1 = 1 ∧ blockReads 8 1 8 = 1 ∧ blockReads 8 0 17 = 3 := by decide
+
 
 end YaraModel.Limits
